@@ -118,11 +118,9 @@ def dvLoop (p : Nat) (tab : DigitTab) (multiDec fraction : Bool) (dec non : Nat)
       dvLoop p tab multiDec fraction dec non hasSingle len lead r (i + 1) c { st with negative := true }
     else dvLoop p tab multiDec fraction dec non hasSingle len lead r (i + 1) c st
 
-/-- `_get_digital_value(digits_str, power)` under `@precision(prec=p)`. -/
-def digitalValue (p : Nat) (tab : DigitTab) (c : SepCfg) (s : Str) (power : Nat) : Except Err Dec := do
-  let fraction := s.contains 47
-  let (dec, non, hasSingle) := effectiveSeps c s
-  let st ← dvLoop p tab c.multiDec fraction dec non hasSingle s.length (leadLen s) s 0 0 {}
+/-- The part of `_get_digital_value` after the loop: `call_stack.append(tmp)`, the fraction quotient, the sum of the
+stack, the power, the sign. -/
+def dvFinish (p : Nat) (fraction : Bool) (st : DVState) (power : Nat) : Except Err Dec := do
   let stack := st.tmp :: st.stack                       -- call_stack.append(tmp); head = last pushed
   let (cal, rest) ←
     if fraction then
@@ -136,6 +134,13 @@ def digitalValue (p : Nat) (tab : DigitTab) (c : SepCfg) (s : Str) (power : Nat)
   let cal := rest.reverse.foldl (fun acc n => Dec.add p acc n) cal      -- `for n in call_stack` (oldest first)
   let cal := Dec.mul p cal (Dec.ofNat power)
   pure (if st.negative then Dec.mul p cal (Dec.ofInt (-1)) else cal)
+
+/-- `_get_digital_value(digits_str, power)` under `@precision(prec=p)`. -/
+def digitalValue (p : Nat) (tab : DigitTab) (c : SepCfg) (s : Str) (power : Nat) : Except Err Dec := do
+  let fraction := s.contains 47
+  let (dec, non, hasSingle) := effectiveSeps c s
+  let st ← dvLoop p tab c.multiDec fraction dec non hasSingle s.length (leadLen s) s 0 0 {}
+  dvFinish p fraction st power
 
 /-- `_digit_number_parse` + `parse` on a digit literal that contains no round-number word / multiplier suffix
 and no negative *term*: resolution string. -/
